@@ -11,12 +11,13 @@
 (* (site, property-name class) with site in                                 *)
 (*   "top" (question at top level), "group" (question in a group),          *)
 (*   "repeat" (question in a repeat), "grouprow" (on a begin-group row),    *)
-(*   "group_in_repeat" (question in a group that is inside a repeat).       *)
+(*   "group_in_repeat" (question in a group that is inside a repeat),       *)
+(*   "after_inner_repeat" (in a repeat, after a nested repeat has closed).  *)
 (* `nsset`: the settings sheet also declares custom namespaces.             *)
 (***************************************************************************)
 EXTENDS Naturals, Sequences, FiniteSets, TLC
 
-Sites == {"top", "group", "repeat", "grouprow", "group_in_repeat"}
+Sites == {"top", "group", "repeat", "grouprow", "group_in_repeat", "after_inner_repeat"}    \* (in the outer repeat, after a nested repeat has closed)
 \* property-name classes; the reserved prefix is reserved at the START of a name only
 ValidNames == {"valid", "inner_dunder", "trailing_dunder", "underscore_first"}
 NameClasses == ValidNames \cup {"name", "Label", "reserved_prefix", "digit_first", "space"}
@@ -51,7 +52,7 @@ ESpec == EInit /\ [][ENext]_evars
 TableReject(x) == \/ (x.up /\ ~x.id)            \* 0 0 1 and 0 1 1: need an id to update
                   \/ (x.id /\ x.cr /\ ~x.up)    \* 1 1 0: id only acceptable when updating
                   \/ (~x.id /\ ~x.lab)          \* creating needs a label
-SaveToReject(x) == \/ \E s \in x.saveto : s[1] \in {"repeat", "grouprow", "group_in_repeat"} \/ s[2] \notin ValidNames
+SaveToReject(x) == \/ \E s \in x.saveto : s[1] \in {"repeat", "grouprow", "group_in_repeat", "after_inner_repeat"} \/ s[2] \notin ValidNames
                    \/ (~x.sheet /\ x.saveto # {})
 Rejected(x) == IF ~x.sheet THEN x.saveto # {}
                ELSE TableReject(x) \/ SaveToReject(x) \/ x.dataset # "valid" \/ x.nrows > 1 \/ x.extracol # "none"
